@@ -6,7 +6,8 @@
 (* the generic object API), and the answers of the real readers:           *)
 (*                                                                         *)
 (*  kind     "name" | "num"                                                *)
-(*  api      "Write" | "WriteMap"                                          *)
+(*  api      "Write" | "WriteMap" | "InMemory" (Write(w, t.All()) for an   *)
+(*           in-memory tree value t whose map is val at that moment)       *)
 (*  ord      the concrete keys occurring anywhere in the record (written,  *)
 (*           found in the tree, probed), ascending, as byte sequences      *)
 (*           (names: their bytes; integers: 8 bytes, big-endian, offset    *)
@@ -24,6 +25,9 @@
 (*           other negative numbers = any other outcome                    *)
 (*  allk/allv, mallk/mallv   what the two All() iterators yielded          *)
 (*  size     nametree.Size / numtree.Size (-1: error)                      *)
+(*  mem      TRUE for api "InMemory"; then vallk/vallv = what t.All()      *)
+(*           yielded and vl = t.Lookup for every rank, just before the     *)
+(*           write (after the owner's edits of t.Data)                     *)
 (*  seq      number of the record (names the file of reasons)              *)
 (*                                                                         *)
 (* Acceptance refers to Ref... operators only.                             *)
@@ -69,6 +73,12 @@ Build(nodes, i) ==
 Answers(c, ans) == /\ Len(ans) = Len(c.val)
                    /\ \A r \in 1..Len(ans) : ans[r] = c.val[r] \/ (c.sampled /\ ans[r] = -9)
 
+\* the in-memory value itself shows the map
+ValueParts(c, mm) ==
+  IF ~c.mem THEN <<>>
+  ELSE (IF Len(c.vallk) = Len(c.vallv) /\ IsRefAll(mm, Zip(c.vallk, c.vallv)) THEN <<>> ELSE <<"ValueEnumerates">>)
+       \o (IF c.vl = c.val THEN <<>> ELSE <<"ValueLookup">>)
+
 \* the parts of the verdict, by name
 Parts(c) ==
   LET mm == MapOf(c)
@@ -76,16 +86,18 @@ Parts(c) ==
       tree == Build(c.nodes, 1)
       U == Len(c.ord)
   IN IF ~OrdOK(c) THEN <<"HarnessOrder">>     \* the harness's ranks are not the reference order
-     ELSE IF c.accepted # (c.api = "WriteMap" \/ RefAccepts(c.input)) THEN <<"RejectsExactly">>
+     ELSE IF c.accepted # (c.api \in {"WriteMap", "InMemory"} \/ RefAccepts(c.input)) THEN <<"RejectsExactly">>
      ELSE IF ~c.accepted THEN <<>>
      ELSE IF n = 0 THEN
-        (IF c.rootnull /\ c.root = 0 THEN <<>> ELSE <<"EmptyNoTree">>)
+        ValueParts(c, mm)
+        \o (IF c.rootnull /\ c.root = 0 THEN <<>> ELSE <<"EmptyNoTree">>)
         \o (IF Len(c.lk) = U /\ Len(c.ml) = U /\ \A r \in 1..U : c.lk[r] = -1 /\ c.ml[r] = -1 THEN <<>> ELSE <<"Faithful">>)
         \o (IF c.allk = <<>> /\ c.mallk = <<>> /\ c.size = 0 THEN <<>> ELSE <<"Enumerates">>)
-     ELSE IF c.rootnull \/ c.root = 0 THEN <<"EmptyNoTree">>
+     ELSE IF c.rootnull \/ c.root = 0 THEN ValueParts(c, mm) \o <<"EmptyNoTree">>
      ELSE IF ~IsTree(c) THEN <<"Valid">>
      ELSE
-        (IF RefValid(tree, TRUE) THEN <<>> ELSE <<"Valid">>)
+        ValueParts(c, mm)
+        \o (IF RefValid(tree, TRUE) THEN <<>> ELSE <<"Valid">>)
         \o (IF IsRefAll(mm, Entries(tree)) THEN <<>> ELSE <<"TreeContent">>)
         \o (IF \A r \in 1..U : RefTreeLookup(tree, r) = RefLookup(mm, r) THEN <<>> ELSE <<"TreeLookup">>)
         \o (IF Answers(c, c.lk) THEN <<>> ELSE <<"Faithful">>)
